@@ -75,7 +75,7 @@ type GOpt struct {
 type GNode struct {
 	UID     int        `json:"uid"`
 	Key     int        `json:"key"`
-	Kind    string     `json:"kind"` // lambda | pass | sub
+	Kind    string     `json:"kind"` // lambda | pass | sub | tools
 	Natives int        `json:"natives,omitempty"`
 	Fails   bool       `json:"fails,omitempty"`
 	SelfCB  bool       `json:"selfcb,omitempty"`  // the lambda fires its callbacks itself (WithLambdaCallbackEnable)
@@ -84,6 +84,9 @@ type GNode struct {
 	Shared  int        `json:"shared,omitempty"` // >0: nodes with the same value are the same *Lambda object
 	SubDag  bool       `json:"subdag,omitempty"`
 	Stages  [][]*GNode `json:"stages,omitempty"`
+	Typed   string     `json:"typed,omitempty"` // sub: "tools" = conversion lambda, ToolsNode, conversion lambda
+	Conv    bool       `json:"conv,omitempty"`  // lambda: a conversion lambda of a tools sub graph
+	Calls   []*GCall   `json:"calls,omitempty"` // tools: the tool calls of the message
 }
 
 type Case struct {
@@ -97,6 +100,7 @@ type Case struct {
 	Opts     []GOpt     `json:"opts,omitempty"`
 	Paradigm string     `json:"paradigm,omitempty"` // invoke | stream | collect | transform
 	Dag      bool       `json:"dag,omitempty"`
+	Chain    bool       `json:"chain,omitempty"` // the top level is built with compose.NewChain (AppendLambda / AppendParallel / AppendGraph / AppendPassthrough)
 	Stages   [][]*GNode `json:"stages,omitempty"`
 	InChunks int        `json:"in_chunks,omitempty"`
 	Seed     uint64     `json:"seed,omitempty"`
@@ -328,13 +332,29 @@ func concatChunks(chunks []any) any {
 		if !ok {
 			return fmt.Sprintf("<%T>", c)
 		}
-		for k, v := range m {
+		mergeInto(out, m)
+	}
+	return out
+}
+
+// mergeInto merges one chunk into the accumulated map: strings are concatenated in order,
+// nested maps (the outputs of a Chain's parallel nodes) merged recursively.
+func mergeInto(out, m map[string]any) {
+	for k, v := range m {
+		switch t := v.(type) {
+		case map[string]any:
+			prev, _ := out[k].(map[string]any)
+			if prev == nil {
+				prev = map[string]any{}
+			}
+			mergeInto(prev, t)
+			out[k] = prev
+		default:
 			prev, _ := out[k].(string)
 			vs, _ := v.(string)
 			out[k] = prev + vs
 		}
 	}
-	return out
 }
 
 // ---------------------------------------------------------------- engine plumbing
